@@ -92,8 +92,11 @@ PROPS = {
     "C05": dict(
         title="Base-2^k normalization yields the unique balanced digit expansion",
         module="SpqProofs.Properties.C05",
-        streams=dict(quick=[("kz_norm", "plain"), ("vz_norm", "plain")], thorough=[("kz_norm", "plain"), ("vz_norm", "plain"), ("vz_box", "plain")]),
-        proved="digit/carry = balanced residue / exact quotient (all k in [1,62], |x|,|cin| <= 2^62, no wrap); per-coefficient chain = balancedDigits (existence, value identity, uniqueness); heap-level normalize_spec for all nn, k, limb counts incl. 0, strides, in place or disjoint, frame, bounds flag; big and range variants",
+        variants={"plain": None, "asan": None},
+        extra_modules=["SpqProofs.Properties.SrcNorm"],
+        gen=["csrc"],   # tools/c2lean.py: spqlios/coeffs/coeffs_arithmetic.c -> lean/Gen/CSrc.lean (clang JSON AST -> Spq.CIR terms)
+        streams=dict(quick=[("kz_norm", "plain"), ("vz_norm", "plain"), ("cs_norm", "plain")], thorough=[("kz_norm", "plain"), ("vz_norm", "plain"), ("vz_box", "plain"), ("cs_norm", "plain"), ("cs_norm", "asan")]),
+        proved="digit/carry = balanced residue / exact quotient (all k in [1,62], |x|,|cin| <= 2^62, no wrap); per-coefficient chain = balancedDigits (existence, value identity, uniqueness); heap-level normalize_spec for all nn, k, limb counts incl. 0, strides, in place or disjoint, frame, bounds flag; big and range variants SOURCE TIE (Properties/SrcNorm.lean): the C source of znx_normalize (helpers inlined), translated on every run, is proved equal to the model function in its six pointer shapes for every nn, 1 <= k <= 63 and any aliasing of out/carry_out with in/carry_in.",
         not_proved="nothing of the statement is left unproved at model level; the 8 argument shapes of znx_normalize are one model function (the shapes differ only in what is stored) — tied by the kz_norm stream over all shapes and aliasing patterns",
         level_text="Lean 4 theorems: balanced base-2^k expansion (value, range, uniqueness) for every k, limb count and stride; model tied to the code by exhaustive small boxes and boundary carry chains, bit-exact",
         design_ref="DESIGN.md §5 C05",
@@ -125,8 +128,11 @@ PROPS = {
     "C08": dict(
         title="vec_znx size/stride semantics",
         module="SpqProofs.Properties.C08",
-        streams=dict(quick=[("vz_box", "plain")], thorough=[("vz_box", "plain")]),
-        proved="value + frame + bounds-flag theorems for zero/copy/negate/add/sub/rotate/automorphism and the big wrappers, for all nn, limb counts incl. 0, strides >= nn, offsets, heap contents, aliased or disjoint sources; int64 zero-extension corollaries",
+        variants={"plain": None, "asan": None},
+        extra_modules=["SpqProofs.Properties.SrcElem"],
+        gen=["csrc"],   # tools/c2lean.py: spqlios/coeffs/coeffs_arithmetic.c -> lean/Gen/CSrc.lean (clang JSON AST -> Spq.CIR terms)
+        streams=dict(quick=[("vz_box", "plain"), ("cs_elem", "plain")], thorough=[("vz_box", "plain"), ("cs_elem", "plain"), ("cs_elem", "asan")]),
+        proved="value + frame + bounds-flag theorems for zero/copy/negate/add/sub/rotate/automorphism and the big wrappers, for all nn, limb counts incl. 0, strides >= nn, offsets, heap contents, aliased or disjoint sources; int64 zero-extension corollaries SOURCE TIE (Properties/SrcElem.lean): the C source of znx_add/sub/negate/copy/zero_i64_ref, translated on every run by tools/c2lean.py into a deep-embedded term, is proved equal to the model function for every nn and any aliasing, with no out-of-bounds access.",
         not_proved="AVX lane chunking is modelled as the same per-limb function (tied by the correspondence on the avx variants and the generic/AVX dispatch masks)",
         level_text="Lean 4 theorems over the heap model of vec_znx: value, frame and bounds for all sizes (incl. 0), strides, dimensions and contents; model tied to /repo by bit-exact whole-arena differential runs (canary padding, all size orderings, both module types and dispatch masks)",
         design_ref="DESIGN.md §5 C08",
@@ -134,8 +140,11 @@ PROPS = {
     "C09": dict(
         title="Rotation, automorphism and (X^p-1) product are the ring maps for every p",
         module="SpqProofs.Properties.C09",
-        streams=dict(quick=[("kz_probe", "plain"), ("kz_f64", "plain"), ("vz_box", "plain")], thorough=[("kz_probe", "plain"), ("kz_f64", "plain"), ("vz_box", "plain"), ("md_prog", "plain")]),
-        proved="rotate/mulxp/automorphism (out of place) equal the closed coefficient formulas of X^p·a, X^p·a − a, a(X^p) for every nn, every p in Z (automorphism: nn = 2^t, odd p; result independent of prior output); in-place rotation and (X^p−1) equal the out-of-place maps for EVERY nn and p with the model's fuel proved sufficient; in-place automorphism equals the out-of-place one for every nn = 2^t (t ≤ 64: the C contract) and odd p, via (Z/2^t)^× = <−1>×<5>; composition laws (additive / multiplicative mod 2N)",
+        variants={"plain": None, "asan": None},
+        extra_modules=["SpqProofs.Properties.SrcRot"],
+        gen=["csrc"],   # tools/c2lean.py: spqlios/coeffs/coeffs_arithmetic.c -> lean/Gen/CSrc.lean (clang JSON AST -> Spq.CIR terms)
+        streams=dict(quick=[("kz_probe", "plain"), ("kz_f64", "plain"), ("vz_box", "plain"), ("cs_rot", "plain")], thorough=[("kz_probe", "plain"), ("kz_f64", "plain"), ("vz_box", "plain"), ("md_prog", "plain"), ("cs_rot", "plain"), ("cs_rot", "asan")]),
+        proved="rotate/mulxp/automorphism (out of place) equal the closed coefficient formulas of X^p·a, X^p·a − a, a(X^p) for every nn, every p in Z (automorphism: nn = 2^t, odd p; result independent of prior output); in-place rotation and (X^p−1) equal the out-of-place maps for EVERY nn and p with the model's fuel proved sufficient; in-place automorphism equals the out-of-place one for every nn = 2^t (t ≤ 64: the C contract) and odd p, via (Z/2^t)^× = <−1>×<5>; composition laws (additive / multiplicative mod 2N) SOURCE TIE (Properties/SrcRot.lean): the C source of znx/rnx rotate, mul_xp_minus_one, automorphism (out of place) and of the in-place rotate / mul_xp_minus_one cycle walks, translated on every run, is proved equal to the model functions for nn = 2^t, every p (termination of the do-while walks proved).",
         not_proved="the bridge from the closed coefficient formulas to Mathlib's AdjoinRoot (X^N+1) is not formalised (the formulas are the textbook ones); double-precision variants are the same polymorphic definitions (tied by the probe stream on integer-valued doubles)",
         level_text="Lean 4 theorems for all N and all p, including the in-place cycle-leader walks (termination proved) and the 2-adic orbit structure of the in-place automorphism; exhaustive injective-probe correspondence with the real int64 and double kernels",
         design_ref="DESIGN.md §5 C09",
